@@ -54,7 +54,7 @@ where
         }
         Ok(None) => {}
         Err(e) => {
-            if src.seen_doc_end() {
+            if src.seen_doc_end() && !e.is_budget_or_io() {
                 // Trailing garbage after a proper document end marker is ignored.
             } else {
                 return Err(wrap_err(e));
